@@ -25,94 +25,6 @@ def sequential_units(ctx):
     ]
 
 
-class LinUnit(Unit):
-    """code -> model with silent steps: the driver records concurrent histories of the real ds.Set (invoke/return events,
-    forced DeleteAll || Apply/Compute/Replace schedules, all-method mixes under a watchdog); TLC searches for a
-    linearization of every history against spec/orderedset/SetLin.tla (depth-first)."""
-    name = "SetLin:setconc"
-
-    def __init__(self):
-        self.info = {}
-
-    def summary(self):
-        return json.dumps(self.info)
-
-    def run(self, ctx):
-        tr = os.path.join(ctx.out, "setconc.ndjson")
-        n = (600, 200) if ctx.thorough else (60, 30)
-        p = run_h(ctx, ["setconc", "-seed", str(ctx.seed), "-histories", str(n[0]), "-mixes", str(n[1]), "-out", tr], timeout=900)
-        if p.returncode != 0:
-            raise Inconclusive("setconc died: %s" % (p.stderr or p.stdout)[-1500:])
-        self.info["driver"] = p.stdout.strip()
-        with open(tr) as fh:
-            lines = [x for x in fh.read().splitlines() if x.strip()]
-        hists = split_traces_ev(lines)
-        total = len(hists)
-        rejected = 0
-        for rnd in range(8):
-            cur = os.path.join(ctx.out, "setconc.validate.ndjson")
-            with open(cur, "w") as fh:
-                for h in hists:
-                    fh.write("\n".join(h) + "\n")
-            v = lin.validate(ctx.spec("orderedset"), "SetLin", cur, timeout=900)
-            ctx.bump("trace_validation_states", v["tlc"].distinct)
-            if v.get("error"):
-                save = os.path.join(ctx.out, "SetLin.out")
-                open(save, "w").write(v["tlc"].out)
-                raise Inconclusive("linearizability search did not run: %s (%s)" % (v["error"], save))
-            if v["accepted"]:
-                break
-            hw = v["high_water"]          # 1-based index of the furthest line reached = first line that could not be consumed
-            pos, bad = 0, None
-            for i, h in enumerate(hists):
-                if pos < hw <= pos + len(h):
-                    bad = i
-                    break
-                pos += len(h)
-            if bad is None:
-                raise Inconclusive("cannot locate the rejected history (high water %s)" % hw)
-            h = [json.loads(x) for x in hists[bad]]
-            off = h[hw - pos - 1]
-            if off.get("ev") == "final" and off.get("hung"):
-                sig = "Set:deadlock:%s" % off.get("scenario", "history")
-                what = "ds.Set: calls never returned (threads %s hung) in schedule %s" % (off["hung"], off.get("scenario", "free-running history"))
-            else:
-                sig = "Set:lin:%s" % off.get("ev")
-                what = "ds.Set: history is not linearizable; no placement of the linearization points explains %s" % json.dumps(off)
-            if not any(x["sig"] == sig for x in ctx.violations):
-                ctx.violation(self.name, sig, what, {"kind": "history", "history": h})
-            rejected += 1
-            del hists[bad]
-        else:
-            ctx.inconclusive.append("SetLin: more than 8 rejected histories, rest not validated")
-        ctx.validated += total - rejected
-        self.info["histories"] = total
-        self.info["rejected"] = rejected
-        if hists:
-            ctx.sample({"unit": self.name, "flow": "code->model (concurrent history, first events)", "history": [json.loads(x) for x in hists[min(4, len(hists) - 1)][:10]]})
-
-    def replay(self, ctx, data):
-        tr = os.path.join(ctx.out, "replay.ndjson")
-        with open(tr, "w") as fh:
-            for e in data["history"]:
-                fh.write(json.dumps(e) + "\n")
-        v = lin.validate(ctx.spec("orderedset"), "SetLin", tr)
-        print("accepted" if v["accepted"] else "rejected at line %s" % v["high_water"])
-        return 0 if v["accepted"] else 1
-
-
-def split_traces_ev(lines):
-    out, cur = [], []
-    for l in lines:
-        if '"ev":"reset"' in l.replace(" ", "") and cur:
-            out.append(cur)
-            cur = []
-        cur.append(l)
-    if cur:
-        out.append(cur)
-    return out
-
-
 def concurrent_units(ctx):
     return [
         # lock discipline of ds.Set, all interleavings of one method per thread (3 threads x 7 methods): no deadlock, atomicity
@@ -120,7 +32,7 @@ def concurrent_units(ctx):
         # negative controls: DeleteAll re-entering the read lock (as before the fix), Compute under the read lock only
         McUnit("orderedset", "SetLockImpl", "reentrant", name="ctl-deleteall-reentrant", expect="NoDeadlock"),
         McUnit("orderedset", "SetLockImpl", "computer", name="ctl-compute-rlock", expect="AtomicWeak"),
-        LinUnit(),
+        lin.LinUnit("orderedset", "SetLin", "setconc", ["-histories", 60, "-mixes", 30], ["-histories", 600, "-mixes", 200], "Set", name="SetLin:setconc"),
     ]
 
 
